@@ -30,6 +30,10 @@ Theorem C18_hello : forall E udp ds old, List.length old = 1500%nat ->
 Proof.
   intros E udp ds old. apply (runs_safe _ (fun b => List.length b = 1500%nat)). intros st d H. exact (hello_safe E udp st d H).
 Qed.
+(* the hello-world listener's status and output for a datagram do not depend on the old buffer content either *)
+Theorem C18_hello_stale_independent : forall E udp old1 old2 d, List.length old1 = 1500%nat -> List.length old2 = 1500%nat ->
+  fst (hello_recv (ldqE E) (stqE E) udp old1 d) = fst (hello_recv (ldqE E) (stqE E) udp old2 d).
+Proof. exact hello_stale_independent. Qed.
 Theorem C18_vss : forall E udp ds old, List.length old = 1500%nat ->
   Forall survives (fst (runs (drop_events (vss_recv (ldwE E) (ldqE E) (stqE E) udp)) old ds)) /\
   List.length (snd (runs (drop_events (vss_recv (ldwE E) (ldqE E) (stqE E) udp)) old ds)) = 1500%nat.
@@ -77,6 +81,7 @@ Proof. vm_compute. reflexivity. Qed.
 Print Assumptions C18_can.
 Print Assumptions C18_can_stale_independent.
 Print Assumptions C18_hello.
+Print Assumptions C18_hello_stale_independent.
 Print Assumptions C18_vss.
 Print Assumptions C18_aaf.
 Print Assumptions C18_cvf.
